@@ -35,6 +35,7 @@ def check(run):
     run.rule('D2', 'raw bytes, hex string and base64 string of the same serialisation parse to the same result', 12)
     run.rule('D3', 'the Cell, Slice and Builder entry points all return the (content of the) root of the same parse', 10)
     run.trust('CPython ast', 'checker interpreter', 'models of base64 / bytes.fromhex')
+    small_scope(run, prog, w, 5 if thorough else 3)
     dags = bocrun.dags(thorough)
     big = {'tree341', 'heap255', 'heap256', 'heap257', 'tree85'}
     for name, roots in dags.items():
@@ -104,3 +105,19 @@ def check(run):
         run.fail('D2', 'Boc.__init__[garbage]', 'a string that is neither hex nor base64 is accepted', wb)
     except RaiseEx:
         run.ok('D2', 'garbage rejected')
+
+
+def small_scope(run, prog, where, max_n):
+    """small-scope exhaustive family (quick: <= 3 cells; thorough: up to 5): every DAG shape with <= 3 cells (<= 4 references each), 4 cells (<= 3) and 5 cells (<= 2), two content modes"""
+    from .. import smallscope
+    n, res = smallscope.run_family(prog, 'roundtrip', max_n)
+    run.count('small_scope_dags', n)
+    bad = [r for r in res if r[2] != 'ok']
+    if any(r[2] == 'undecided' for r in res):
+        raise AnalysisError(f'small-scope family: {[r for r in res if r[2] == "undecided"][0]}')
+    run.evaluations += len(res)
+    for tag, opt, st, detail in res:
+        if st == 'ok':
+            run.ok('D1', f'small:{tag}{list(opt)}')
+    for tag, opt, st, detail in bad[:3]:
+        run.fail('D1', 'Cell.to_boc/Cell.one_from_boc[small-scope DAG]', f'{tag} with options {opt}: {detail}  ({len(bad)} of {len(res)} small-scope cases fail)', where, witness=dict(dag=tag, opt=[str(o) for o in opt]))
